@@ -316,7 +316,10 @@ def gate_and_minimise(engine_cls, tier, seed, key, plan, log):
     r2 = run_plan_fresh(engine_cls, tier, seed, plan)
     k1 = [k for k, _ in r1.violations]
     k2 = [k for k, _ in r2.violations]
-    if key not in k1 or key not in k2 or r1.digest != r2.digest:
+    # (C13's subject is determinism itself: there a violation that shows in both re-executions is real even when the
+    # two executions differ from each other - the program under test is then nondeterministic under identical simulated
+    # conditions, which is what the property forbids)
+    if key not in k1 or key not in k2 or (r1.digest != r2.digest and not getattr(engine_cls, "digest_may_vary", False)):
         log("gate: key %s did not reproduce identically (%s / %s, digests %s %s)" % (key, k1, k2, r1.digest, r2.digest))
         return "flaky", plan
     eng = engine_cls(tier, seed)
